@@ -25,13 +25,24 @@
       hypothesis is exactly "no data race on the explored operations", which the harness checks by
       reflection (classification), by differential runs with 2…16 goroutines, and — as a supporting
       search only — under the race detector.
-    * where the code LEAVES the discipline the theorem does not apply; these places are listed by
-      `not_concurrentSafe_rows` and replayed by the harness:
-        - `rlwe.Evaluator.ShallowCopy`: `automorphismIndex` (a Go map) is shared and filled lazily in
-          `CheckAndGetGaloisKey` (core/rlwe/evaluator.go:117-127) — `sharedCache`;
-        - every `WithKey`, `Encryptor.WithPRNG`, samplers' `AtLevel`: scratch / PRNG state shared;
-          documented as not concurrently usable except `bgv.Evaluator.WithKey` and
-          `rlwe.Encryptor.WithKey`, whose doc comments do not say so.
+    * where the code LEAVES the discipline the theorem does not apply; these rows are listed by
+      `not_concurrentSafe_rows` (every one of them is a constructor that shares scratch buffers or
+      PRNG state and whose doc comment says "cannot be used concurrently": all `WithKey`,
+      `Encryptor.WithPRNG`, samplers' `AtLevel`; exception: `rlwe.Encryptor.WithKey`, whose comment does
+      not say so — known finding `C10/Encryptor.WithKey/shares-state-undocumented`).
+    * history: before fix C10-4 `rlwe.Evaluator.ShallowCopy` shared the Go map `automorphismIndex`, which
+      `CheckAndGetGaloisKey` filled lazily (`sharedCache`): the harness crashed a child process with
+      "fatal error: concurrent map read and map write" and the race detector pointed at
+      core/rlwe/evaluator.go:120/121.  With the fix the map is never written after construction
+      (`sharedRO`) and the row is concurrent-safe; `noninterference_needs_readonly_counterexample`
+      keeps the reason why the read-only hypothesis cannot be dropped.
+    * fixed while building this property (rows are now complete): `EvaluationKey.CopyNew` dropped `Seed`
+      (C10-1), `bgv.Evaluator.WithKey` dropped `ScaleInvariant` (C10-2),
+      `mpckks.MaskedLinearTransformationProtocol.ShallowCopy` dropped `noise` (C10-3), `MetaData.CopyNew`
+      shared `Scale`'s big numbers (C10-5: `Ciphertext/Plaintext.CopyNew` rows are now `owned`).
+    * known finding kept: `rlwe.Encryptor.ShallowCopy` builds a fresh encryptor and therefore forgets a
+      PRNG installed with `WithPRNG` (`C10/Encryptor.ShallowCopy/drops-WithPRNG`; in the table this is the
+      `rng` class of `prng` and the `nested` samplers: by construction a shallow copy has fresh randomness).
 -/
 import Lattigo.Proofs.Copy
 
@@ -125,12 +136,13 @@ theorem noninterference_needs_readonly_counterexample :
   · simp [runSched, proj, Step.apply]
 
 /-- the rows of the table that leave the discipline (TEST by evaluation of the table, which is the
-    model): exactly the constructors sharing a cache, scratch buffers or PRNG state. -/
+    model): exactly the constructors sharing scratch buffers or PRNG state; all shallow copies
+    (`ShallowCopy`) and deep copies are concurrent-safe. -/
 def not_concurrentSafe_rows : List String :=
   (table.filter fun (_, r) => !r.concurrentSafe).map (·.1)
 
 theorem not_concurrentSafe_rows_eq : not_concurrentSafe_rows =
-    ["rlwe.Evaluator.ShallowCopy", "rlwe.Evaluator.WithKey", "rlwe.Encryptor.WithKey",
+    ["rlwe.Evaluator.WithKey", "rlwe.Encryptor.WithKey",
      "rlwe.Encryptor.WithPRNG", "ring.UniformSampler.AtLevel", "ring.GaussianSampler.AtLevel",
      "bgv.Evaluator.WithKey", "ckks.Evaluator.WithKey"] := by decide
 
@@ -138,8 +150,7 @@ theorem not_concurrentSafe_rows_eq : not_concurrentSafe_rows =
 def incomplete_rows : List String := (table.filter fun (_, r) => !r.complete).map (·.1)
 
 theorem incomplete_rows_eq : incomplete_rows =
-    ["rlwe.EvaluationKey.CopyNew[compressed]", "ring.Ring.AtLevel", "bgv.Evaluator.WithKey",
-     "mpckks.MaskedLinearTransformationProtocol.ShallowCopy"] := by decide
+    ["ring.Ring.AtLevel"] := by decide   -- `level` is what AtLevel is meant to change
 
 end Lattigo.Props.C10
 
